@@ -418,8 +418,9 @@ func replayMat(in *core.Lines, args []string, seed int64, sum *core.Summary) err
 							sum.Fail("codec:"+who+":illformed", what+": "+d.illformed, raw)
 						case d.r != wr || d.c != wc || !eqBits(d.bits, e):
 							sum.Fail("codec:"+who+":value", fmt.Sprintf("%s decoded %dx%d %x, specification %dx%d %x", what, d.r, d.c, d.bits, wr, wc, e), raw)
-						case ar[0] == "stream" && d.n != 40+8*len(e):
-							sum.Fail("codec:"+who+":count", fmt.Sprintf("%s returned n=%d, header+payload is %d bytes", what, d.n, 40+8*len(e)), raw)
+						case ar[0] == "stream" && (d.n < 40+8*len(e) || d.n > len(b)):
+							// (with trailing bytes the count may not be below what was consumed nor above what was offered)
+							sum.Fail("codec:"+who+":count", fmt.Sprintf("%s returned n=%d, header+payload is %d bytes of %d", what, d.n, 40+8*len(e), len(b)), raw)
 						}
 						continue
 					}
